@@ -14,8 +14,8 @@ scenario are enumerated; after every prefix the observation
     swallowed by the reader, where it is parked | journal rows | stored counter | live counter |
     state | role | TestReqID pending | schedule obeys FIFO drain wake-up
 
-is compared with the extracted model (coq/theories/Fix/Sched.v via SchedRun.v).  On every
-complete FIFO schedule the property oracle (written from the property text, shares nothing with
+is compared with the extracted model (coq/theories/Fix/Sched.v via SchedRun.v).  After every
+prefix of every schedule the property oracle (written from the property text, shares nothing with
 the model) is evaluated on the implementation's observable behaviour.
 
 ALL private-name access is in class Impl."""
@@ -42,11 +42,11 @@ META = {
             "messages, the heartbeat probe, the reader handling a TestRequest / a gap / an application message / a Logon on a fresh "
             "acceptor / a ResendRequest over 2-4 journaled rows with and without declined replays); every interleaving of the tasks "
             "over their suspension points (drain, awaited hooks) is enumerated, FIFO and non-FIFO drain wake-up; non-trivial when at "
-            "least two tasks have been resumed; distinct by (scenario, prefix); the oracle runs on every complete FIFO schedule",
+            "least two tasks have been resumed; distinct by (scenario, prefix); the oracle runs on every case (every prefix of every schedule, FIFO or not)",
     "trusted_base": [
         "asyncio scheduling rule (modelled in Fix/Sched.v, reproduced by the harness scheduler): a coroutine runs without preemption "
-        "up to its next await of a pending future; one task resumes at a time; StreamWriter.drain waiters "
-        "(FlowControlMixin._drain_waiters) are woken in arrival order (FIFO); awaited application hooks may resume in any order",
+        "up to its next await of a pending future; one task resumes at a time; NO assumption on the order in which drain "
+        "waiters or awaited application hooks resume (every order is enumerated and covered by the theorems)",
         "the only suspension points inside the outbound path are writer.drain() and the awaited hooks on_state_change / should_replay / "
         "on_message / on_logon (checked on every step: a resumed task must park or finish within one loop iteration)",
         "ConnectionState / ConnectionRole numbers and MsgType characters are written into Fix/Sched.v; compared here through the state "
@@ -561,7 +561,7 @@ def _explore_job(args):
 # ------------------------------------------------------------------------------------------
 
 def oracle(s, obs, extra):
-    """Breaches of C14 on a complete schedule (all tasks finished)."""
+    """Breaches of C14 on the observation after any schedule prefix."""
     wire, tasks, rows, sout = obs[0], obs[1], obs[2], obs[3]
     bad = []
     is_new = lambda f: not f[2] and f[1] != ord("4")  # noqa: E731
@@ -631,24 +631,23 @@ def judge(ctx, s, sched, obs, extra):
     done = all(t[2] == 3 for t in obs[1])
     if extra["stuck"]:
         ctx.disagree({"scn": s, "sched": sched}, extra["stuck"], None, "suspension-points")
-    if done and obs[8] and s.get("oracle", True):
+    # since the journal write is inside the atomic segment of send_msg the property holds after EVERY prefix of EVERY
+    # schedule (FIFO drain wake-up or not): the oracle is evaluated on every case
+    if s.get("oracle", True):
         for what in oracle(s, obs, extra)[:1]:
             ctx.fail({"scn": s, "sched": sched}, what + " | wire " + json.dumps(obs[0]), None)
-        if any(t[0] == "in" and t[1] == "resend" for t in s["tasks"]) and len(s["tasks"]) > 1:
-            ctx.count("complete-fifo-with-resend-service")
-    elif done:
-        ctx.count("complete-nonfifo")
-        new = [f for f in obs[0] if not f[2] and f[1] != ord("4")]
-        if new and obs[3] != max(f[0] for f in new):
-            ctx.count("nonfifo-counter-below-highest")
     if done:
         ctx.count("complete")
+        if not obs[8]:
+            ctx.count("complete-nonfifo")
+        if any(t[0] == "in" and t[1] == "resend" for t in s["tasks"]) and len(s["tasks"]) > 1:
+            ctx.count("complete-with-resend-service")
 
 
 def witnesses():
     """The example schedules of Props/C14.v, re-run on the implementation: the three schedules that broke the
     property before the repair of D12 (now C14_resend_window_example / .._caller_example / C14_heartbeat_inflight_example)
-    and the LIFO wake-up witness of C14_lifo_counter_refuted."""
+    and the LIFO wake-up schedule of C14_lifo_counter_example."""
     rw = scn("example resend window", [["in", "resend", 1, 0, []], ["send", [D(9)]]], pre=[D(1), D(2), D(3)])
     hb = scn("example heartbeat in flight", [["in", "resend", 1, 0, []], ["hb"]], pre=[D(1), D(2)])
     lifo = scn("witness LIFO wake-up", [["send", [D(1)]], ["send", [D(2)]]])
@@ -666,8 +665,8 @@ def witnesses():
         ("C14_resend_unservable_example", scn("example unservable request", [["in", "resend", 7, 0, []], ["send", [D(9)]]], pre=[D(1), D(2)]),
          [0, 0, 1, 0, 1],
          lambda o: o[1][0][1] == [3] and seqs(o) == [(1, 0, 1), (2, 0, 2), (3, 0, 9)] and o[5] == 17 and o[3] == 3 and o[4] == 4),
-        ("C14_lifo_counter_refuted", lifo, [0, 1, 1, 0],
-         lambda o: [f[0] for f in o[0]] == [1, 2] and o[3] == 1 and o[4] == 3 and o[8] == 0),
+        ("C14_lifo_counter_example", lifo, [0, 1, 1, 0],
+         lambda o: [f[0] for f in o[0]] == [1, 2] and o[3] == 2 and o[4] == 3 and o[8] == 0),
     ]
 
 
